@@ -215,11 +215,21 @@ func casesOfInline(fn *ssa.Function, tag ssa.Value, consts map[string]constant.V
 	var out []caseResult
 	run := func(name string, val constant.Value) {
 		assume := map[ssa.Value]constant.Value{}
-		for _, t := range equivLoads(fn, tag) {
+		home := func(v ssa.Value) *ssa.Function {
+			// the function a dispatch value lives in (a helper of fn when the dispatch was extracted)
+			if in, ok := v.(ssa.Instruction); ok && in.Parent() != nil {
+				return in.Parent()
+			}
+			if prm, ok := v.(*ssa.Parameter); ok && prm.Parent() != nil {
+				return prm.Parent()
+			}
+			return fn
+		}
+		for _, t := range equivLoads(home(tag), tag) {
 			assume[t] = val
 		}
 		for k, v := range extra {
-			for _, t := range equivLoads(fn, k) {
+			for _, t := range equivLoads(home(k), k) {
 				assume[t] = v
 			}
 		}
@@ -474,17 +484,24 @@ func equivLoads(fn *ssa.Function, tag ssa.Value) []ssa.Value {
 		if !ok {
 			return out
 		}
-		base, ok := fa.X.(*ssa.Alloc)
-		if !ok || len(storesTo(base)) > 1 {
+		if base, ok := fa.X.(*ssa.Alloc); ok {
+			if len(storesTo(base)) > 1 {
+				return out
+			}
+		}
+		refs := fa.X.Referrers()
+		if refs == nil {
 			return out
 		}
-		// no stores through any FieldAddr of this field
-		for _, ref := range *base.Referrers() {
+		// no stores through any FieldAddr of this field of the same base; the field of the
+		// node that is dispatched on is assumed not to be written behind the function's back
+		// by its callees (no rule-relevant builder mutates the AST node it reads)
+		for _, ref := range *refs {
 			if fa2, ok := ref.(*ssa.FieldAddr); ok && fa2.Field == fa.Field && len(storesTo(fa2)) > 0 {
 				return out
 			}
 		}
-		for _, ref := range *base.Referrers() {
+		for _, ref := range *refs {
 			if fa2, ok := ref.(*ssa.FieldAddr); ok && fa2.Field == fa.Field {
 				for _, r2 := range *fa2.Referrers() {
 					if u, ok := r2.(*ssa.UnOp); ok && u.Op == token.MUL && u != x {
